@@ -756,6 +756,56 @@ func c09VersionSweep(emit func(srot, []sop)) {
 	}
 }
 
+// gas sweep: a finite block gas limit that is reached EXACTLY mid-block (a 1-byte Set costs
+// 200 + 20 = 220), then refused block-level Sets (new key, overwritten key) and Deletes, writes in a
+// session after exhaustion, block commit, versioned reads of everything, reopen, plain reads
+func c09GasSweep(emit func(srot, []sop)) {
+	for _, rot := range []srot{{1, 0, 0}, {10, 100, 10}} {
+		for n := 0; n <= 3; n++ { // accepted sets before exhaustion
+			for slack := 0; slack < 2; slack++ { // 0: exactly exhausted, 1: the last accepted set overshoots
+				for variant := 0; variant < 6; variant++ {
+					for pre := 0; pre < 2; pre++ { // 1: an earlier unmetered block wrote keys 0 and 5
+						ops := []sop{}
+						ver := int64(0)
+						if pre == 1 {
+							ops = append(ops, sop{Kind: "set", Key: 0, Val: []byte("p")}, sop{Kind: "set", Key: 5, Val: []byte("q")}, sop{Kind: "blockcommit"})
+							ver++
+						}
+						lim := int64(220*n - 100*slack)
+						if lim < 0 {
+							continue
+						}
+						ops = append(ops, sop{Kind: "fresh", Limit: lim})
+						for i := 0; i < n; i++ {
+							ops = append(ops, sop{Kind: "set", Key: i, Val: []byte{byte('a' + i)}})
+						}
+						switch variant { // after exhaustion
+						case 0:
+							ops = append(ops, sop{Kind: "set", Key: 7, Val: []byte("x")})
+						case 1:
+							ops = append(ops, sop{Kind: "set", Key: 0, Val: []byte("y")})
+						case 2:
+							ops = append(ops, sop{Kind: "delete", Key: 0}, sop{Kind: "set", Key: 5, Val: []byte("z")})
+						case 3:
+							ops = append(ops, sop{Kind: "set", Key: 7, Val: []byte("x")}, sop{Kind: "get", Key: 7}, sop{Kind: "exists", Key: 7}, sop{Kind: "set", Key: 8, Val: []byte("w")})
+						case 4:
+							ops = append(ops, sop{Kind: "begin"}, sop{Kind: "set", Key: 7, Val: []byte("s")}, sop{Kind: "commit"}, sop{Kind: "set", Key: 8, Val: []byte("x")})
+						case 5:
+							ops = append(ops, sop{Kind: "set", Key: 7, Val: []byte("x")}, sop{Kind: "write"}, sop{Kind: "get", Key: 7})
+						}
+						ops = append(ops, sop{Kind: "blockcommit"})
+						ver++
+						ops = c09ReadAll(ops, []int{0, 5, 7, 8}, ver)
+						ops = append(ops, sop{Kind: "reopen"})
+						ops = c09ReadAll(ops, []int{0, 5, 7, 8}, ver)
+						emit(rot, ops)
+					}
+				}
+			}
+		}
+	}
+}
+
 func coqVal(b []byte) string {
 	parts := make([]string, len(b))
 	for i, x := range b {
@@ -941,6 +991,13 @@ func c09Main(args []string) int {
 			cases = append(cases, rc)
 		})
 	}
+	if *sweep {
+		c09GasSweep(func(rot srot, ops []sop) {
+			rc := runCase(rot, ops)
+			rc.Family = "gas-sweep"
+			cases = append(cases, rc)
+		})
+	}
 	if *nver < 0 {
 		*nver = *nrand / 2
 	}
@@ -1085,7 +1142,8 @@ func c09Main(args []string) int {
 		b.WriteString("Definition NG := Eval vm_compute in Z.of_nat (count_guarded cases).\n")
 		fmt.Fprintf(&b, "Definition SM := Eval vm_compute in flat1 (strip_mismatches %d cases).\n", lo)
 		fmt.Fprintf(&b, "Definition TM := Eval vm_compute in flat1 (tlog_mismatches %d cases).\n", lo)
-		b.WriteString("Print MM.\nPrint SV.\nPrint NG.\nPrint SM.\nPrint TM.\n")
+		fmt.Fprintf(&b, "Definition CV := Eval vm_compute in flat3 (content_violations %d cases).\n", lo)
+		b.WriteString("Print MM.\nPrint SV.\nPrint NG.\nPrint SM.\nPrint TM.\nPrint CV.\n")
 		name := fmt.Sprintf("%s/c09_cases_%d.v", *outDir, s)
 		if err := os.WriteFile(name, b.Bytes(), 0644); err != nil {
 			fmt.Fprintln(os.Stderr, err)
